@@ -95,6 +95,15 @@ class Check:
                                stdout=subprocess.PIPE, stderr=subprocess.PIPE, text=True, timeout=timeout)
         except subprocess.TimeoutExpired:
             self.fatal("vdrive %s timed out after %ss" % (" ".join(map(str, args[:2])), timeout))
+        if p.returncode == 3:
+            # the watchdog of the driver: a call into the library did not return
+            hang = None
+            for a in args:
+                if isinstance(a, str) and os.path.exists(a + ".hang"):
+                    hang = json.load(open(a + ".hang"))
+            self.hangs = getattr(self, "hangs", [])
+            self.hangs.append({"args": [str(a) for a in args[:2]], "hang": hang})
+            return {"_rc": 3, "_hang": hang, "cases": 1, "executions": 0, "mismatches": 0, "traces": 0, "events": 0, "distinct_nontrivial": 0}
         if p.returncode != 0 and check:
             self.fatal("vdrive %s failed rc=%d:\n%s" % (" ".join(map(str, args)), p.returncode, (p.stderr or "")[-3000:]))
         lines = [x for x in p.stdout.strip().split("\n") if x.strip()]
